@@ -45,6 +45,10 @@ def library_panic(stderr):
     j = stderr.find("[running]:", i)
     if j < 0:
         return None
+    # the runner annotates the metadata of an error value a call returned (harness annotate()): that map belongs to
+    # one call, so the Go runtime's "concurrent map" abort there means the library handed one error value to two calls
+    if "concurrent map" in stderr[i:i + 200] and "main.annotate" in stderr[j:j + 3000]:
+        return stderr[i:i + 6000]
     for line in stderr[j:].splitlines()[1:40]:
         if line.startswith(("\t", " ")) or not line.strip():
             continue
